@@ -79,6 +79,10 @@ def main():
             missing = suite(wt)
             meta["steps"]["suite_with_change"] = {"baseline_tests_not_passing": len(missing), "first": missing[:5]}
         env = dict(os.environ, ATTRS_REPO=str(wt))
+        # the check rewrites evidence/<id>.json and Generated/Tables.lean from the CHANGED tree: keep the
+        # committed versions (evidence must come from runs against /repo itself)
+        keep = {f: (f.read_bytes() if f.exists() else None)
+                for f in (VERIF / "evidence" / f"{pid}.json", VERIF / "lean" / "AttrsModel" / "AttrsModel" / "Generated" / "Tables.lean")}
         t0 = time.time()
         rcc, outc = sh([str(VERIF / "check"), pid, "--tier", tier], cwd=VERIF, env=env, timeout=3000)
         lines = [l for l in outc.splitlines() if l.startswith(("VIOLATION", "[" + pid, "TOOL-FAILURE"))]
@@ -96,6 +100,9 @@ def main():
             rcr, outr = sh([str(VERIF / "check"), "replay", m.group(1)], cwd=VERIF, env=env, timeout=600)
             meta["steps"]["replay_with_change"] = {"rc": rcr, "verdict": [l for l in outr.splitlines() if l.startswith("verdict")]}
     finally:
+        for f, b in (keep if "keep" in dir() else {}).items():
+            if b is not None:
+                f.write_bytes(b)
         sh(["git", "-C", str(wt), "reset", "-q", "--hard"])
         sh(["git", "-C", str(wt), "clean", "-fdq"])
     meta["confirmed"] = (rc0 == 0 and meta["steps"]["demo_with_change"]["rc"] != 0
